@@ -696,6 +696,20 @@ class _Merger(object):
                     'Unmatched keyword parameters: {0}'.format(
                     ' '.join(str(arg) for arg in non_defaulted)))
 
+    def _same_annotation(self, left, right):
+        if left.annotation != right.annotation:
+            return False
+        l_upgraded = left.upgraded_annotation
+        r_upgraded = right.upgraded_annotation
+        if l_upgraded is EmptyAnnotation or r_upgraded is EmptyAnnotation:
+            return True
+        # postponed annotations are text: the same text may denote
+        # different objects in the modules the two functions come from
+        try:
+            return l_upgraded == r_upgraded
+        except Exception:
+            return True
+
     def _concile_meta(self, left, right):
         default = left.empty
         if left.default != left.empty and right.default != right.empty:
@@ -710,7 +724,7 @@ class _Merger(object):
         annotation = left.empty
         upgraded_annotation = EmptyAnnotation
         if left.annotation != left.empty and right.annotation != right.empty:
-            if left.annotation == right.annotation:
+            if self._same_annotation(left, right):
                 annotation = left.annotation
                 upgraded_annotation = left.upgraded_annotation
         elif left.annotation != left.empty:
